@@ -12,6 +12,8 @@ import (
 	"strings"
 	"unsafe"
 
+	"github.com/free5gc/nas/nasType"
+
 	"verif/mc/core"
 	"verif/mc/gen"
 )
@@ -517,12 +519,20 @@ func C09DumpAnnotations() map[string]string {
 
 var c09QuickVals = []byte{0, 1, 2, 3, 7, 8, 0x0F, 0x10, 0x55, 0x7F, 0x80, 0xAA, 0xFE, 0xFF}
 
-func c09Run(c *core.Ctx) {
+type c09Job struct {
+	t       *gen.TypeInfo
+	field   string
+	annText string
+	name    string
+}
+
+// c09Jobs lists the accessor pairs of one shard in registry order and records annotation bookkeeping.
+func c09Jobs(c *core.Ctx, shard, nshards int, quiet bool) []c09Job {
 	pinned := c09LoadPinned()
-	if pinned == nil {
+	if pinned == nil && !quiet {
 		c.Note("spec/accessors.json missing: current annotations used unpinned")
 	}
-	thorough := c.Thorough()
+	var jobs []c09Job
 	pairIdx := 0
 	for ti := range gen.Types {
 		t := &gen.Types[ti]
@@ -550,7 +560,7 @@ func c09Run(c *core.Ctx) {
 			}
 			name := t.Name + "." + f
 			pairIdx++
-			if !c.Mine(pairIdx) {
+			if nshards > 1 && pairIdx%nshards != shard {
 				continue
 			}
 			annText := setAnn
@@ -559,36 +569,160 @@ func c09Run(c *core.Ctx) {
 			}
 			if pin, ok := pinned[name]; ok {
 				if annText != pin {
-					c.Seen("annotation_edits", name+": pinned \""+pin+"\" current \""+annText+"\"")
+					if !quiet {
+						c.Seen("annotation_edits", name+": pinned \""+pin+"\" current \""+annText+"\"")
+					}
 					annText = pin
 				}
-			} else if pinned != nil && annText != "" {
+			} else if pinned != nil && annText != "" && !quiet {
 				c.Seen("unpinned_accessors", name)
 			}
 			if annText == "" {
-				c.Inc("pairs_without_annotation")
-				c.Seen("unannotated", name)
+				if !quiet {
+					c.Inc("pairs_without_annotation")
+					c.Seen("unannotated", name)
+				}
 				continue
 			}
-			if gets[f] != "" && setAnn != "" {
+			if gets[f] != "" && setAnn != "" && !quiet {
 				ga, _ := c09ParseAnn(gets[f])
 				sa, _ := c09ParseAnn(setAnn)
 				if ga != nil && sa != nil && *ga != *sa {
 					c.Seen("getter_setter_annotations_differ", name)
 				}
 			}
-			p, why := c09Prepare(t, f, annText)
-			if p == nil {
-				c.Inc("pairs_skipped:" + why)
-				c.Seen("skipped", name+":"+why)
-				continue
+			jobs = append(jobs, c09Job{t: t, field: f, annText: annText, name: name})
+		}
+	}
+	return jobs
+}
+
+type c09MaskSeq struct {
+	Calls [][2]uint8 `json:"calls"` // (ub, lb) in call order; the last call is judged
+}
+
+func c09MaskExec(c *core.Ctx, in c09MaskSeq) {
+	var got uint8
+	pi := core.Try(func() {
+		for _, cl := range in.Calls {
+			got = nasType.GetBitMask(cl[0], cl[1])
+		}
+	})
+	last := in.Calls[len(in.Calls)-1]
+	want := uint8((1<<(last[0]-last[1]) - 1) << last[1])
+	if pi != nil {
+		c.FailCase("GetBitMask|"+pi.Key(), "panics: "+pi.Msg, "bitmask-seq", in)
+	} else if got != want {
+		c.FailCase("GetBitMask|wrong-mask", fmt.Sprintf("after the calls %v GetBitMask(%d,%d) = %#02x, the bits >= %d and < %d are %#02x", in.Calls[:len(in.Calls)-1], last[0], last[1], got, last[1], last[0], want), "bitmask-seq", in)
+	}
+}
+
+type c09After struct {
+	Shard   int     `json:"shard"`
+	NShards int     `json:"nshards"`
+	Case    c09Case `json:"case"`
+}
+
+// c09AfterExec replays a case that failed in the second (reverse) pass: first the whole quick forward pass of the
+// shard in a scratch context (whatever process-wide state the accessors build up is rebuilt), then the case.
+func c09AfterExec(c *core.Ctx, in c09After) {
+	c09WarmAll()
+	sub := core.NewCtx(c.Prop, "quick", 0, 0, 1)
+	c09CaseRun(sub, in.Case)
+	for k, v := range sub.Viols {
+		c.Fail("after-pass|"+strings.SplitN(k, "|", 2)[1], "after every accessor of the registry had been called once: "+v.What)
+	}
+}
+
+// c09WarmAll calls every Get/Set pair of the registry a few times on scratch elements (results ignored).
+func c09WarmAll() {
+	scratch := core.NewCtx("C09", "quick", 0, 0, 1)
+	for _, j := range c09Jobs(scratch, 0, 1, true) {
+		p, _ := c09Prepare(j.t, j.field, j.annText)
+		if p == nil {
+			continue
+		}
+		size := p.elem.arrLen
+		if p.elem.kind == "buf" {
+			size = p.ann.R1 + 2
+			if p.ann.N < 0 {
+				size = p.ann.R0 + 2
 			}
-			c.Inc("pairs")
-			if c.Begin("pair", name, map[string]string{"accessor": name, "annotation": annText}) {
-				c09Pair1(c, p, thorough)
+		}
+		if size < 1 {
+			size = 1
+		}
+		for _, fill := range []byte{0x00, 0xFF} {
+			prior := bytes.Repeat([]byte{fill}, size)
+			arg := bytes.Repeat([]byte{^fill}, 4)
+			core.Try(func() { c09Exec(scratch, p, prior, fill, uint16(size), arg, func() c09Case { return c09Case{} }) })
+		}
+	}
+}
+
+func c09Run(c *core.Ctx) {
+	thorough := c.Thorough()
+	jobs := c09Jobs(c, c.Shard, c.NShards, false)
+	var prepared []*c09Pair
+	for _, j := range jobs {
+		p, why := c09Prepare(j.t, j.field, j.annText)
+		if p == nil {
+			c.Inc("pairs_skipped:" + why)
+			c.Seen("skipped", j.name+":"+why)
+			continue
+		}
+		c.Inc("pairs")
+		prepared = append(prepared, p)
+		if c.Begin("pair", j.name, map[string]string{"accessor": j.name, "annotation": j.annText}) {
+			c09Pair1(c, p, thorough)
+		}
+	}
+	// the mask helper behind the generated accessors, for every (ub, lb) and every ordered pair of calls; a failure is
+	// recorded with the complete call history of the process so far (self-contained even if the helper keeps state)
+	if c.Shard == 0 && c.Begin("bitmask", "GetBitMask", "truth table in every call order") {
+		var combos [][2]uint8
+		for ub := uint8(0); ub <= 8; ub++ {
+			for lb := uint8(0); lb <= ub; lb++ {
+				combos = append(combos, [2]uint8{ub, lb})
+			}
+		}
+		var history [][2]uint8
+		failed := false
+		for _, a := range combos {
+			for _, b := range combos {
+				for _, cl := range [][2]uint8{a, b} {
+					history = append(history, cl)
+					c.Inc("evaluations")
+					got := nasType.GetBitMask(cl[0], cl[1])
+					if want := uint8((1<<(cl[0]-cl[1]) - 1) << cl[1]); got != want && !failed {
+						failed = true
+						c09MaskExec(c, c09MaskSeq{Calls: append([][2]uint8{}, history...)})
+					}
+				}
 			}
 		}
 	}
+	// every accessor of the registry is touched once (process-wide state that any of them builds up is now present)
+	c09WarmAll()
+	// second pass in reverse order with the boundary values: an accessor must not depend on which other accessors ran
+	// before it (process-wide caches)
+	found := len(c.Viols)
+	for i := len(prepared) - 1; i >= 0; i-- {
+		p := prepared[i]
+		if !c.Begin("pair-second-pass", p.t.Name+"."+p.field, map[string]string{"accessor": p.t.Name + "." + p.field}) {
+			continue
+		}
+		sub := core.NewCtx(c.Prop, "quick", 0, 0, 1)
+		c09Pair1(sub, p, false)
+		c.Add("evaluations", sub.Counters["evaluations"])
+		for k, v := range sub.Viols {
+			key := "after-pass|" + strings.SplitN(k, "|", 2)[1]
+			var cs c09Case
+			json.Unmarshal(v.Case, &cs)
+			c.FailCase(key, "in the second pass (after every accessor of the registry had been called): "+v.What, "accessor-after-pass", c09After{Shard: c.Shard, NShards: c.NShards, Case: cs})
+		}
+	}
+	_ = found
 }
 
 func c09Pair1(c *core.Ctx, p *c09Pair, thorough bool) {
@@ -807,11 +941,13 @@ func c09Pair1(c *core.Ctx, p *c09Pair, thorough bool) {
 
 func init() {
 	core.RegisterKind("C09", "accessor", c09CaseRun)
+	core.RegisterKind("C09", "bitmask-seq", c09MaskExec)
+	core.RegisterKind("C09", "accessor-after-pass", c09AfterExec)
 	core.RegisterProp(&core.PropSpec{
 		ID: "C09", Level: "exploration", Run: c09Run,
 		Shards: func(string) int { return 16 },
 		Rule: func(tier string) string {
-			return "every Get/Set pair of every nasType element (registry generated from the current tree) x prior contents x argument values: single-octet fields over all 256 priors of the host octet x argument values (all 256 in thorough) with the other octets in {00,FF,A5}; multi-octet bit fields over all field values x host-octet priors (all 2^16 in thorough); copy fields and INF fields over fill/position patterns and short/equal/long arguments; oracle computed from the pinned annotation only (Get = annotated bits; Set changes exactly those bits; Iei/Len/other bits and storage length unchanged). A case is (accessor, prior contents, argument); distinct_nontrivial counts accessor pairs exercised."
+			return "every Get/Set pair of every nasType element (registry generated from the current tree) x prior contents x argument values: single-octet fields over all 256 priors of the host octet x argument values (all 256 in thorough) with the other octets in {00,FF,A5}; multi-octet bit fields over all field values x host-octet priors (all 2^16 in thorough); copy fields and INF fields over fill/position patterns and short/equal/long arguments; oracle computed from the pinned annotation only (Get = annotated bits; Set changes exactly those bits; Iei/Len/other bits and storage length unchanged). Then the mask helper GetBitMask over every (ub, lb) in every ordered pair of calls, and a second pass over the accessors in reverse order (an accessor must not depend on which accessors ran before it). A case is (accessor, prior contents, argument); distinct_nontrivial counts accessor pairs exercised."
 		},
 		Assumptions: []string{
 			"the accessor annotations (pinned in mc/spec/accessors.json) are the documented layout; their agreement with the TS 24.501 figures is assumed",
